@@ -104,6 +104,7 @@ def make_case(cid, rng, mix):
                  names=rng.choice([prog.NAMES, prog.NAMES, ['a', 'b'], ['a', 'b', 'c', 'd', 'e'], ['a', 'b', 'c', 'd', 'e', 'f']]))
     g.prologue = mix.get('prologue', rng.choice([0.55, 0.3, 0.15]))
     g.single = rng.random() < mix.get('single', 0.5)
+    g.multi = rng.random() < mix.get('multi', 0.35)
     body, nsites, nreads = prog.number(g.program())
     locals_ = sorted(prog.bound_names(body))
     pre = []
